@@ -278,8 +278,10 @@ WEAK3 = ["x + ZeroExt(1, y) != ZeroExt(1, z)", "x ^ ZeroExt(1, y) != ZeroExt(1, 
 
 def gen_history(rng, length, calpha=CONSTRAINTS, ealpha=EXPRS, balpha=BOOLS, uni=None, max_solvers=4,
                 weights=None, threads=0, replace=0.0, replace_any=False, symv=0.0, first_eq=0.0, contra=0.0, prefix=None, pickle_all=0.0,
-                core_extra=0.0, annotate=0.0, ann_kinds=(1, 2, 3)):
-    """core_extra: share of unsat_core() calls that pass extra constraints (what-if cores), a part of them contradicting
+                core_extra=0.0, annotate=0.0, ann_kinds=(1, 2, 3), repl_noinval=0.0):
+    """repl_noinval: share of the user-level replacements (`replace`) made with invalidate_cache=False - of any variable; the
+    solver that makes one (and its later branches) is no longer judged by run_history, all the others are;
+    core_extra: share of unsat_core() calls that pass extra constraints (what-if cores), a part of them contradicting
     a constraint the solver holds;  annotate: share of added constraints that carry an annotation (`Ann(c, k)`, k from ann_kinds;
     the generator's own bookkeeping keeps the plain text);
     pickle_all: share of pickle calls that send ALL solvers of the history through one dump (what they share stays shared);
@@ -293,7 +295,7 @@ def gen_history(rng, length, calpha=CONSTRAINTS, ealpha=EXPRS, balpha=BOOLS, uni
         # thread hand-off: the same history, each call tagged with the thread that makes it (runs of calls per thread)
         hist, t = gen_history(rng, length, calpha, ealpha, balpha, uni, max_solvers, weights, replace=replace, replace_any=replace_any,
                               symv=symv, first_eq=first_eq, contra=contra, prefix=prefix, pickle_all=pickle_all,
-                              core_extra=core_extra, annotate=annotate, ann_kinds=ann_kinds), 0
+                              core_extra=core_extra, annotate=annotate, ann_kinds=ann_kinds, repl_noinval=repl_noinval), 0
         for d in hist:
             if rng.random() < 0.3:
                 t = rng.randrange(threads + 1)
@@ -351,7 +353,10 @@ def gen_history(rng, length, calpha=CONSTRAINTS, ealpha=EXPRS, balpha=BOOLS, uni
             # replace_any (twin runs only, where no reference reading is needed): also variables already constrained or
             # replaced before — a replacement that changes makes everything rewritten with the old one stale
             fresh = [v for v in ("x", "y", "z") if replace_any or v not in used[s]]
-            if replace and fresh and rng.random() < replace:
+            if replace and repl_noinval and rng.random() < replace * repl_noinval:
+                v, c = rng.choice(["x", "y", "z"]), rng.randrange(8)
+                d.update(cs=["(%s) == %d" % (v, c)], repl=[v, c], inval=False)
+            elif replace and fresh and rng.random() < replace:
                 # SolverReplacement.add_replacement(variable, constant) for a variable no constraint mentions yet: from
                 # then on the solver answers as if `variable == constant` had been added (which is how the reference
                 # takes it); run_history calls add_replacement when the solver has it
@@ -762,6 +767,80 @@ def prefix_exhaust_then_connect(rng):
     return hist
 
 
+def prefix_branch_rebuild(rng, calpha=None, ealpha=None, repl=0.0, rebuild=("downsize", "pickle", "simplify", "add", "none")):
+    """A solver is given constraints on a variable v, maybe asked, and branched (sometimes twice: nested).  ONE of the solvers -
+    the actor: child, parent or grand-child - then learns more: further constraints narrowing v and, with probability `repl`,
+    a user-level replacement add_replacement(u, constant) (2 of 3 with invalidate_cache=False, then of any variable; else of a
+    variable nothing mentions yet).  Each OTHER solver then rebuilds what it remembers - downsize(), a pickle round trip,
+    simplify(), one more constraint on another variable - and is asked everything about v (and u): all values, the extrema,
+    single values by solution() and by satisfiable(extra_constraints=[v == k])."""
+    calpha = calpha or CONSTRAINTS
+    ealpha = ealpha or EXPRS
+    by_var = {v: [c for c in calpha if _vars_of(c) == {v}] for v in ("x", "y", "z")}
+    v = rng.choice([u for u in ("x", "x", "y", "z") if len(by_var[u]) >= 2])
+    mentioned = {v}
+    hist = [_add([rng.choice(by_var[v])])]
+    if rng.random() < 0.4:
+        hist.append(_add([rng.choice(by_var[v])]))
+    if rng.random() < 0.3:
+        c = rng.choice([c for c in calpha if _vars_of(c) and v not in _vars_of(c)] or by_var[v])
+        mentioned |= _vars_of(c)
+        hist.append(_add([c]))
+    ex = [e for e in ealpha if _vars_of(e) == {v}] or [v]
+    if rng.random() < 0.5:
+        hist.append(_query(rng, 0, ex, big=rng.random() < 0.5))
+    hist.append({"s": 0, "op": "branch"})
+    n = 2
+    if rng.random() < 0.3:
+        hist.append({"s": rng.choice([0, 1]), "op": "branch"})
+        n = 3
+    actor = rng.randrange(n)
+    about = [v]
+    acts = []
+    for _ in range(rng.choice([1, 1, 2])):
+        if repl and rng.random() < repl:
+            if rng.random() < 0.67:
+                u = rng.choice(["x", "y", "z", v])
+                acts.append({"s": actor, "op": "add", "cs": ["(%s) == %d" % (u, rng.randrange(8))], "repl": [u, rng.randrange(8)], "inval": False})
+                acts[-1]["cs"] = ["(%s) == %d" % (u, acts[-1]["repl"][1])]
+                about.append(u)
+            else:
+                fresh = [u for u in ("x", "y", "z") if u not in mentioned]
+                if fresh:
+                    u, c = rng.choice(fresh), rng.randrange(8)
+                    acts.append({"s": actor, "op": "add", "cs": ["(%s) == %d" % (u, c)], "repl": [u, c]})
+                    mentioned.add(u)
+                    about.append(u)
+        else:
+            acts.append(_add([rng.choice(by_var[v])], actor))
+    hist += acts
+    if rng.random() < 0.5:
+        hist.append(_query(rng, actor, ex + about[1:], big=rng.random() < 0.5))
+    others = [i for i in range(n) if i != actor]
+    rng.shuffle(others)
+    for o in others:
+        rb = rng.choice(rebuild)
+        if rb == "add":
+            c = rng.choice([c for c in calpha if _vars_of(c) and not _vars_of(c) & set(about)] or ["true"])
+            hist.append(_add([c], o))
+        elif rb != "none":
+            hist.append({"s": o, "op": rb})
+        for _ in range(rng.choice([2, 3])):
+            k, u = rng.random(), rng.choice(about)
+            if k < 0.4:
+                hist.append({"s": o, "op": "eval", "e": u if rng.random() < 0.7 else rng.choice([e for e in ealpha if u in _vars_of(e)] or [u]),
+                             "n": 20, "extra": []})
+            elif k < 0.6:
+                hist.append({"s": o, "op": rng.choice(["min", "max"]), "e": u, "signed": False, "extra": []})
+            elif k < 0.8:
+                hist.append({"s": o, "op": "solution", "e": u, "v": rng.randrange(16), "extra": []})
+            else:
+                hist.append({"s": o, "op": "satisfiable", "extra": ["%s == %d" % (u, rng.randrange(8))]})
+    if rng.random() < 0.3:
+        hist.append(_query(rng, actor, ex, big=True))
+    return hist
+
+
 _CONFLICTS = []
 
 
@@ -867,12 +946,14 @@ def prefix_annotated_core(rng, annotate=0.7, ann_kinds=(1, 2, 3)):
 
 
 PREFIXES = {"unchecked-simplify": prefix_unchecked_simplify, "empty-branch": prefix_empty_branch, "early-pickle": prefix_early_pickle,
-            "core-whatif": prefix_core_whatif, "annotated-core": prefix_annotated_core, "exhaust-then-connect": prefix_exhaust_then_connect}
+            "core-whatif": prefix_core_whatif, "annotated-core": prefix_annotated_core, "exhaust-then-connect": prefix_exhaust_then_connect,
+            "branch-rebuild": prefix_branch_rebuild}
 
 
-def gen_directed(rng, length, shape=None, **gen):
-    """a directed opening (PREFIXES) followed by `length` random calls"""
+def gen_directed(rng, length, shape=None, prefix_args=None, **gen):
+    """a directed opening (PREFIXES; `prefix_args` are its keyword arguments) followed by `length` random calls"""
     pk = {k: gen[k] for k in ("annotate", "ann_kinds") if k in gen} if shape in ("core-whatif", "annotated-core") else {}
+    pk.update(prefix_args or {})
     return gen_history(rng, length, prefix=PREFIXES[shape](rng, **pk), **gen)
 
 
@@ -949,7 +1030,7 @@ def judge_approx(uni, ref, d, outcome):
     """C13, second half: an approximate answer (exact=False, or SolverVSA) never excludes a value or a model that
     exists and never reports a satisfiable constraint set as unsatisfiable."""
     op, s = d["op"], d["s"]
-    if op in ("add", "simplify", "downsize", "branch", "blank_copy"):
+    if op in ("add", "simplify", "downsize", "branch", "blank_copy", "pickle"):
         return None if outcome[0] == "ok" else ("crash:" + str(outcome[1]), "%s raised %s" % (op, outcome[1:]))
     extra = [uni.parse(c) for c in d.get("extra", [])]
     sm = ref.satmask(s, extra)
@@ -1255,7 +1336,7 @@ def apply_op(uni, solvers, d):
             if d.get("repl") and hasattr(s, "add_replacement"):
                 import claripy
                 old = uni.parse(d["repl"][0])
-                s.add_replacement(old, claripy.BVV(d["repl"][1] % (1 << old.size()), old.size()))
+                s.add_replacement(old, claripy.BVV(d["repl"][1] % (1 << old.size()), old.size()), invalidate_cache=d.get("inval", True))
                 return ("ok", None)
             r = s.add([uni.parse(c) for c in d["cs"]])
             return ("ok", None if r is None else len(r))
@@ -1443,6 +1524,10 @@ def run_history(uni, cls, cfg, hist, on_step=None, checks=None):
         fails, outs = [], []
         pool = {}
         origin = ["new"]      # per solver: the call that created it
+        # solvers that were given a user-level replacement with invalidate_cache=False (and their later branches): the caller
+        # vouches for what the frontend already derived, so their answers have no reading by the constraints alone - only
+        # crashes are looked at.  Everybody else is judged as ever (that is the point: the OTHER solvers must not notice).
+        unjudged = set()
 
         def run_op(d):
             # ops tagged "t": k run in worker thread k, strictly after everything before them (claripy frontends keep
@@ -1504,12 +1589,22 @@ def run_history(uni, cls, cfg, hist, on_step=None, checks=None):
                     continue
             if d["op"] == "add":
                 ref.add(d["s"], [uni.parse(c) for c in d["cs"]])
+                if d.get("repl") and d.get("inval") is False and hasattr(solvers[d["s"]], "add_replacement"):
+                    unjudged.add(d["s"])
             elif d["op"] == "branch" and out[0] == "ok":
                 ref.branch(d["s"])
+                if d["s"] in unjudged:
+                    unjudged.add(len(solvers) - 1)
             elif d["op"] == "blank_copy" and out[0] == "ok":
                 ref.new([])           # a solver of the same kind that holds no constraints
             origin += [d["op"]] * (len(solvers) - len(origin))
             outs.append(out)
+            if d["s"] in unjudged:
+                if out[0] == "err":
+                    fails.append((k, "crash:" + out[1], "%s raised %s: %s" % (d["op"], out[1], out[2])))
+                if on_step:
+                    on_step(k, d, out, solvers, ref)
+                continue
             if d["op"] == "unsat_core":
                 j = judge_core(uni, ref, solvers[d["s"]], d, out)
             elif d.get("approx") or cls == "SolverVSA":  # approximate answers: over-approximation is all that is asked
@@ -1810,3 +1905,268 @@ def project(hist, k):
         if q == k:
             pos = len(out) - 1
     return out, pos
+
+
+# ----------------------------------------------------------------------------------------------- floats (C13)
+# A second, small universe: two double variables f, g.  The reference is brute force over CANDIDATE values (the IEEE corner
+# cases) with Python floats - the same expression string is evaluated once with claripy constructors (the AST) and once with
+# Python functions on floats / ints (the meaning).  Candidates only give LOWER bounds (a candidate assignment that satisfies the
+# constraints is a model: satisfiable() is True, its values are attainable, complete enumerations contain them, the extrema
+# bracket them, is_true / is_false must hold in it); upper bounds come from a plain claripy.Solver (the class C11 is about) run
+# side by side on the same history: "SolverReplacement answers exactly as a plain solver".
+import math, re, struct
+
+FCAND = [0.0, -0.0, 1.0, -1.0, 2.5, -2.5, math.inf, -math.inf, math.nan, 5e-324]
+
+
+def f2b(v):
+    return struct.unpack("<Q", struct.pack("<d", v))[0]
+
+
+def b2f(b):
+    return struct.unpack("<d", struct.pack("<Q", b & ((1 << 64) - 1)))[0]
+
+
+class Unspecified(Exception):
+    """the meaning is not fixed by IEEE / SMT-LIB (the bit pattern of a NaN)"""
+
+
+def _py_bits(a):
+    if a != a:
+        raise Unspecified("fpToIEEEBV(NaN)")
+    return f2b(a)
+
+
+FCONS = [
+    # pins up to IEEE equality (+0.0 and -0.0 are equal, NaN equals nothing)
+    "fpEQ(f, FPV(0.0))", "f == FPV(-0.0)", "fpEQ(FPV(0.0), f)", "fpEQ(f, FPV(2.5))", "g == FPV(1.0)", "fpEQ(g, FPV(-0.0))", "fpEQ(FPV(-0.0), g)",
+    "fpEQ(f, f)", "fpEQ(f, g)", "fpEQ(fpNeg(f), g)", "fpEQ(fpAbs(f), FPV(0.0))", "Or(fpEQ(f, FPV(1.0)), fpEQ(f, FPV(0.0)))", "f != FPV(0.0)",
+    # orderings
+    "fpLEQ(f, FPV(0.0))", "fpGEQ(f, FPV(-0.0))", "fpLT(f, FPV(1.0))", "fpGT(g, FPV(-1.0))", "fpLEQ(g, f)", "fpLT(f, g)", "fpGEQ(g, FPV(0.0))",
+    # classes
+    "Not(fpIsNaN(g))", "Not(fpIsNaN(f))", "fpIsNaN(f)", "fpIsInf(g)", "Not(fpIsInf(f))",
+    # pins of the bit pattern (identity)
+    "fpToIEEEBV(f) == 0", "fpToIEEEBV(f) == 0x8000000000000000", "Bits(fpToIEEEBV(g), 63, 63) == 1", "fpToIEEEBV(f) != 0",
+    "Bits(fpToIEEEBV(f), 62, 0) == 0", "fpToIEEEBV(g) == 0x3ff0000000000000",
+]
+FEXPRS = ["fpToIEEEBV(f)", "fpToIEEEBV(g)", "Bits(fpToIEEEBV(f), 63, 63)", "Bits(fpToIEEEBV(f), 63, 52)", "fpToIEEEBV(fpNeg(f))",
+          "fpToIEEEBV(fpAbs(g))", "If(fpLT(f, g), BVV(1, 2), BVV(2, 2))", "If(fpIsNaN(f), BVV(1, 1), BVV(0, 1))", "Bits(fpToIEEEBV(g), 63, 63)",
+          "If(fpEQ(f, g), fpToIEEEBV(f), fpToIEEEBV(g))"]
+FBOOLS = ["fpIsNaN(f)", "fpEQ(f, f)", "fpEQ(f, FPV(0.0))", "Bits(fpToIEEEBV(f), 63, 63) == 0", "fpToIEEEBV(f) == 0", "fpLEQ(f, g)", "fpEQ(f, g)",
+          "Not(fpIsInf(g))", "fpToIEEEBV(f) == fpToIEEEBV(g)"]
+FVALUES = [0, 1 << 63, 1, 0x3ff0000000000000, 0xbff0000000000000, 0x4004000000000000, 0x7ff0000000000000, 0xfff0000000000000, 2, 3]
+
+
+class FloatUniverse:
+    names = ["f", "g"]
+
+    def __init__(self, tag="v"):
+        c, D = claripy, claripy.FSORT_DOUBLE
+        self.sym = {n: c.FPS("%s_%s" % (tag, n), D, explicit_name=True) for n in self.names}
+        self.ns = dict(self.sym)
+        self.ns.update(FPV=lambda v: c.FPV(float(v), D), fpEQ=c.fpEQ, fpNEQ=c.fpNEQ, fpLT=c.fpLT, fpLEQ=c.fpLEQ, fpGT=c.fpGT, fpGEQ=c.fpGEQ,
+                       fpIsNaN=c.fpIsNaN, fpIsInf=c.fpIsInf, fpNeg=c.fpNeg, fpAbs=c.fpAbs, fpToIEEEBV=c.fpToIEEEBV, Not=c.Not, Or=c.Or,
+                       And=c.And, If=c.If, BVV=c.BVV, Bits=lambda e, hi, lo: e[hi:lo], true=c.true(), false=c.false())
+        self.pyns = dict(FPV=float, fpEQ=lambda a, b: a == b, fpNEQ=lambda a, b: a != b, fpLT=lambda a, b: a < b, fpLEQ=lambda a, b: a <= b,
+                         fpGT=lambda a, b: a > b, fpGEQ=lambda a, b: a >= b, fpIsNaN=lambda a: a != a,
+                         fpIsInf=lambda a: a in (math.inf, -math.inf), fpNeg=lambda a: -a, fpAbs=abs, fpToIEEEBV=_py_bits,
+                         Not=lambda a: not a, Or=lambda *a: any(a), And=lambda *a: all(a), If=lambda c_, t, e: t if c_ else e,
+                         BVV=lambda v, n: v, Bits=lambda v, hi, lo: (v >> lo) & ((1 << (hi - lo + 1)) - 1), true=True, false=False)
+        self.assignments = [{"f": a, "g": b} for a in FCAND for b in FCAND]
+        self._parsed, self._val = {}, {}
+
+    def parse(self, s):
+        r = self._parsed.get(s)
+        if r is None:
+            r = self._parsed[s] = eval(s, {"__builtins__": {}}, self.ns)  # noqa: S307  (our own strings only)
+        return r
+
+    def value(self, s, i):
+        """meaning of the expression string under candidate assignment number i; raises Unspecified"""
+        k = (s, i)
+        if k not in self._val:
+            try:
+                self._val[k] = (True, eval(s, {"__builtins__": {}}, dict(self.pyns, **self.assignments[i])))  # noqa: S307
+            except Unspecified as e:
+                self._val[k] = (False, e)
+        ok, v = self._val[k]
+        if not ok:
+            raise v
+        return int(v) if isinstance(v, bool) else v
+
+    def models(self, cons):
+        """numbers of the candidate assignments that surely satisfy every constraint string"""
+        out = []
+        for i in range(len(self.assignments)):
+            try:
+                if all(self.value(c, i) for c in cons):
+                    out.append(i)
+            except Unspecified:
+                pass
+        return out
+
+
+def gen_float_history(rng, length, max_n=6):
+    w = {"add": 30, "satisfiable": 10, "eval": 22, "min": 5, "max": 5, "solution": 14, "is_true": 3, "is_false": 3, "simplify": 2, "downsize": 2,
+         "branch": 6}
+    hist = gen_history(rng, length, calpha=FCONS, ealpha=FEXPRS, balpha=FBOOLS, weights=w, max_solvers=3)
+    for d in hist:
+        if "n" in d:
+            d["n"] = min(d["n"], max_n)
+        if d["op"] == "eval" and d["e"] == "b":
+            d["e"] = rng.choice(FEXPRS)
+        if d["op"] == "solution" and rng.random() < 0.85:
+            d["v"] = rng.choice(FVALUES)
+        if d["op"] in ("min", "max"):
+            d["signed"] = False
+    return hist
+
+
+def _fmodel_pred(funi, i):
+    vals = list(funi.assignments[i].values())
+    return ":signed-zero-model" if any(v == 0 for v in vals) else ":nan-model" if any(v != v for v in vals) else ""
+
+
+def judge_float(funi, held, d, out, pout, psat=True, nan_free=True):
+    """one answer of a float history: `held` = constraint strings of the solver, `pout` = the plain Solver's outcome, psat = the
+    plain Solver finds the constraints (with the extra ones) satisfiable, nan_free = it finds that no variable of the queried
+    expression can be NaN"""
+    op = d["op"]
+    if op in ("add", "simplify", "downsize", "branch"):
+        return None if out[0] == "ok" else ("crash:" + str(out[1]), "%s raised %s" % (op, out[1:]))
+    if out[0] == "err":
+        if pout[0] == "err" and pout[1] == out[1]:
+            return None           # what the backend cannot do, it cannot do for either
+        return ("crash:" + out[1], "%s raised %s: %s (plain Solver: %s)" % (op, out[1], out[2], pout[:2]))
+    ms = funi.models(held + list(d.get("extra", [])))
+
+    def known(e, i):
+        try:
+            return funi.value(e, i)
+        except Unspecified:
+            return None
+    if out[0] == "unsat":
+        if ms and op != "solution":
+            return ("spurious-unsat" + _fmodel_pred(funi, ms[0]), "UnsatError although %s satisfies the constraints" % (funi.assignments[ms[0]],))
+    else:
+        val = out[1]
+        if op == "satisfiable" and ms and not val:
+            return ("wrong-sat" + _fmodel_pred(funi, ms[0]), "satisfiable() = False although %s satisfies the constraints" % (funi.assignments[ms[0]],))
+        if op == "eval" and len(val) < d["n"]:
+            got = set(int(v) for v in val)
+            for i in ms:
+                v = known(d["e"], i)
+                if v is not None and v not in got:
+                    return ("incomplete" + _fmodel_pred(funi, i), "returned all of %s, but %s is a model and gives %#x" % (
+                        [hex(x) for x in sorted(got)], funi.assignments[i], v))
+        if op == "solution" and not isinstance(d["v"], str) and not val:
+            w = funi.parse(d["e"]).size()
+            for i in ms:
+                if known(d["e"], i) == d["v"] % (1 << w):
+                    return ("wrong-solution" + _fmodel_pred(funi, i), "solution(%s, %#x) = False, but %s is a model" % (d["e"], d["v"], funi.assignments[i]))
+        if op in ("min", "max") and val is not None:
+            w = funi.parse(d["e"]).size()
+            got = int(val) % (1 << w)
+            for i in ms:
+                v = known(d["e"], i)
+                if v is not None and ((op == "min" and got > v) or (op == "max" and got < v)):
+                    return ("wrong-optimum" + _fmodel_pred(funi, i), "%s(%s) = %#x, but %s is a model and gives %#x" % (op, d["e"], got, funi.assignments[i], v))
+        if op in ("is_true", "is_false") and val:
+            for i in ms:
+                v = known(d["e"], i)
+                if v is not None and bool(v) != (op == "is_true"):
+                    return ("unsound-" + op + _fmodel_pred(funi, i), "%s(%s) = True, but it does not hold in the model %s" % (op, d["e"], funi.assignments[i]))
+    # exactness: the same answer as a plain Solver - where an answer is determined: on constraints without a model anything goes
+    # (except for satisfiable() itself), and the bit pattern of a NaN is nobody's to fix
+    if pout[0] == "err":
+        return None
+    if op == "satisfiable":
+        if out[0] == "ok" and pout[0] == "ok" and bool(out[1]) != bool(pout[1]):
+            return ("wrong-sat:differs-from-plain-solver", "satisfiable() = %s, plain Solver: %s" % (out[1], pout[1]))
+        return None
+    if not psat:
+        return None
+    if out[0] == "unsat":
+        return ("spurious-unsat:differs-from-plain-solver", "UnsatError, but the plain Solver finds the constraints satisfiable and answers %s" % (str(pout[1:])[:120],))
+    if pout[0] != "ok" or not nan_free:
+        return None
+    a, b = out[1], pout[1]
+    if op == "eval" and len(a) < d["n"] and len(b) < d["n"] and set(map(int, a)) != set(map(int, b)):
+        return ("wrong-values:differs-from-plain-solver", "eval = %s, plain Solver: %s" % ([hex(int(x)) for x in a], [hex(int(x)) for x in b]))
+    if op == "eval" and (len(a) < d["n"]) != (len(b) < d["n"]):
+        return ("wrong-values:differs-from-plain-solver", "eval returned %d value(s), the plain Solver %d (n = %d)" % (len(a), len(b), d["n"]))
+    if op in ("min", "max", "solution") and a != b and a is not None and b is not None:
+        return ("wrong-%s:differs-from-plain-solver" % ("optimum" if op != "solution" else "solution"), "%s = %s, plain Solver: %s" % (op, a, b))
+    return None
+
+
+def run_float_history(funi, cls, cfg, hist):
+    """the history on the class under test and on plain claripy.Solver objects side by side; returns (failures, outcomes)"""
+    import claripy.backends
+    bz = claripy.backends.z3
+    saved = bz.reuse_z3_solver
+    bz.reuse_z3_solver = bool(cfg.get("reuse", False))
+    try:
+        if hasattr(bz._tls, "solver"):
+            bz._tls.solver = None
+        solvers, plain, held = [SOLVER_CLASSES[cls]()], [claripy.Solver()], [[]]
+        fails, outs = [], []
+        for k, d in enumerate(hist):
+            if d["s"] >= len(solvers):
+                outs.append(("skip",))
+                continue
+            out = apply_op(funi, solvers, d)
+            pout = apply_op(funi, plain, d)
+            outs.append(out)
+            psat, nan_free = True, True
+            if d["op"] in ("eval", "min", "max", "solution", "is_true", "is_false"):
+                try:
+                    ex = [funi.parse(c) for c in d.get("extra", [])]
+                    psat = plain[d["s"]].satisfiable(extra_constraints=ex)
+                    if psat and d["op"] in ("eval", "min", "max", "solution") and out != pout:
+                        nan_free = not any(plain[d["s"]].satisfiable(extra_constraints=ex + [claripy.fpIsNaN(funi.sym[v])])
+                                           for v in funi.names if re.search(r"\b%s\b" % v, d["e"]))
+                except Exception:  # noqa: BLE001
+                    psat = False
+            j = judge_float(funi, held[d["s"]], d, out, pout, psat, nan_free)
+            # the plain solver is judged too: a failure it shares is not this class's (C11 owns it) - reported with a predicate
+            if j and not j[0].endswith(":differs-from-plain-solver"):
+                jp = judge_float(funi, held[d["s"]], d, pout, pout)
+                if jp and jp[0] == j[0]:
+                    j = (j[0] + ":plain-solver-too", j[1])
+            if d["op"] == "add":
+                held[d["s"]] += d["cs"]
+            elif d["op"] == "branch" and out[0] == "ok":
+                held.append(list(held[d["s"]]))
+            if j:
+                fails.append((k, j[0], j[1]))
+        return fails, outs
+    finally:
+        bz.reuse_z3_solver = saved
+        if hasattr(bz._tls, "solver"):
+            bz._tls.solver = None
+
+
+def shrink_float(funi, cls, cfg, hist, kind):
+    def fails(h):
+        return all(any(k == kind for _, k, _ in run_float_history(funi, cls, cfg, h)[0]) for _ in range(2))
+    f, _o = run_float_history(funi, cls, cfg, hist)
+    idx = [i for i, k, _ in f if k == kind]
+    cur = [dict(d) for d in (hist[:idx[0] + 1] if idx else hist)]
+    changed = True
+    while changed and len(cur) > 1:
+        changed = False
+        for k in range(len(cur) - 2, -1, -1):
+            if cur[k]["op"] == "branch":
+                continue
+            cand = cur[:k] + cur[k + 1:]
+            if fails(cand):
+                cur, changed = cand, True
+                break
+    for k in range(len(cur)):
+        if cur[k].get("extra"):
+            cand = [dict(q) for q in cur]
+            cand[k]["extra"] = []
+            if fails(cand):
+                cur = cand
+    return cur
